@@ -206,7 +206,25 @@ use vstd::future::FutureAdditionalSpecFns;
 // Box::pin only moves the future to the heap (A-core-33); tower Service over a Uri (A-tower-06: the inner connector's future)
 pub mod verif_box { use vstd::prelude::*; pub struct Box { pub x: u8 } impl Box { pub fn pin<F>(f: F) -> (r: F) ensures r == f { f } } }
 pub use verif_box::Box;
-pub trait UriService { type Future: Future<Output = Result<PlainIo, BoxError>>; fn call(&mut self, uri: Uri) -> Self::Future; }
+// the user's connector (tower Service<Uri>): what its next poll_ready will answer is a (ghost) property of its state
+pub trait UriService: Sized {
+    type Error: IntoBoxErr;
+    type Future: Future<Output = Result<PlainIo, BoxError>>;
+    spec fn ready_now(&self) -> Poll<Result<(), Self::Error>>;
+    fn poll_ready(&mut self, cx: &mut Context) -> (r: Poll<Result<(), Self::Error>>) ensures r == old(self).ready_now();
+    fn call(&mut self, uri: Uri) -> Self::Future;
+}
+impl<T, E> Poll<Result<T, E>> {
+    // A-core-09: Poll::map_err maps the Err of a ready result
+    #[verifier::external_body]
+    pub fn map_err<U, G: FnOnce(E) -> U>(self, f: G) -> (r: Poll<Result<T, U>>)
+        requires self matches Poll::Ready(Err(e)) ==> f.requires((e,))
+        ensures
+            self is Pending ==> r is Pending,
+            self matches Poll::Ready(Ok(t)) ==> r == Poll::<Result<T, U>>::Ready(Ok(t)),
+            self matches Poll::Ready(Err(e)) ==> r matches Poll::Ready(Err(u)) && f.ensures((e,), u),
+    { unimplemented!() }
+}
 #[verifier::external_body]
 pub fn verif_opt_str_eq(a: Option<&str>, b: Option<&str>) -> (r: bool) ensures r == (match (a, b) { (Some(x), Some(y)) => x@ == y@, (None, None) => true, _ => false }) { a == b }
 pub open spec fn is_https(uri: Uri) -> bool { uri.scheme matches Some(s) && s@ == "https"@ }
@@ -718,6 +736,12 @@ pub open spec fn ca_roots(cs: Seq<Certificate>) -> Option<Seq<Root>> decreases c
         u.raw('// A-derive-04: #[derive(Clone)] on TlsConnector (dropped with the attributes): the same connector\nimpl Clone for TlsConnector { #[verifier::external_body] fn clone(&self) -> (r: Self) ensures r == *self { unimplemented!() } }')
         u.fn(KN, 'new', within='impl<C> Connector<C>', header='impl<C> Connector<C> {', close=True, display='Connector::new',
              ensures=[Clause('Y0_the_connector_holds_the_tls_configuration_it_was_given_or_none', 'r.tls == tls && r.inner == inner')])
+        u.fn(KN, 'poll_ready', within='impl<C> Service<Uri> for Connector<C>', header='impl<C: UriService> Connector<C> {', close=True, display='Connector::poll_ready', props=['C14', 'C15'],
+             sig_edits=[lambda t: t.sub_code('R9', r'Self::Error', 'ConnectError')],
+             body_edits=[lambda t: t.sub_code('R17', r'ConnectError\(From::from\(err\)\)', 'ConnectError(BoxError::from(err))')],
+             closures={0: dict(params='err: C::Error', ret='(x: ConnectError)', ensures=[])},
+             ensures=[Clause('Y2_ready_exactly_when_the_wrapped_connector_is_ready_its_error_wrapped_as_a_connect_error',
+                             '(r is Pending <==> old(self).inner.ready_now() is Pending) && (r matches Poll::Ready(Ok(_)) <==> old(self).inner.ready_now() matches Poll::Ready(Ok(_)))', ['C14', 'C15'])])
         u.fn(VK, 'call', within='impl<C> Connector<C>', header='impl<C: UriService> Connector<C> {', close=True, display='Connector::call',
              sig_edits=[lambda t: t.sub_code('R9', r'Self::Future', 'impl Future<Output = Result<BoxedIo, ConnectError>>')],
              body_edits=[lambda t: t.sub_code('R17', r'uri\.scheme_str\(\) == Some\("https"\)', 'verif_opt_str_eq(uri.scheme_str(), Some("https"))')],
